@@ -477,6 +477,72 @@ def shared_phase(ctx, rng):
     shared_report(ctx, res, "shared")
 
 
+# ---- round 3: real pthreads + ThreadSanitizer (harness/c12_tsan.c): accesses that no synchronisation orders are invisible to the
+#      one-thread-at-a-time scheduler of harness/sched; here the same kind of histories run on real threads in a TSan build
+TSAN_KEYS = [("POOL_sizeof", "C12-poolsizeof-race-shared-pool")]
+
+
+def tsan_reports(err):
+    """ThreadSanitizer reports of a run -> list of (summary line, text of the access stacks)"""
+    out = []
+    for blk in err.split("=================="):
+        if "WARNING: ThreadSanitizer" not in blk:
+            continue
+        head = blk.split("Location is")[0].split("  Mutex M")[0].split("  Thread T")[0]
+        m = re.search(r"SUMMARY: ThreadSanitizer: (.*)", blk)
+        out.append((m.group(1).strip() if m else blk.strip().splitlines()[0], head))
+    return out
+
+
+def tsan_phase(ctx, rng):
+    exe = core.build_harness("c12_tsan", ["c12_tsan.c"], variant="tsan", extra_flags=["-w"])
+    env = dict(os.environ, TSAN_OPTIONS="halt_on_error=0 exitcode=0 report_signal_unsafe=0 history_size=4")
+    runs = [["sizeof", "1"]]
+    for k in range(6 if ctx.quick else 60):
+        runs.append(["pool", str(rng.getrandbits(20)), str(rng.choice([2, 3, 4])), str(rng.choice([1, 2, 3])), str(rng.choice([0, 0, 1, 2])), "300" if ctx.quick else "1500"])
+    for k in range(2 if ctx.quick else 24):
+        runs.append(["shared", str(rng.getrandbits(20)), str(rng.choice([2, 3])), str(rng.choice([1, 2, 3])), "5" if ctx.quick else "12"])
+    procs = [(a, subprocess.Popen([exe] + a, stdout=subprocess.PIPE, stderr=subprocess.PIPE, text=True, env=env)) for a in runs[:8]]
+    rest = runs[8:]
+    seen, other, n = set(), {}, 0
+    while procs:
+        a, p = procs.pop(0)
+        try:
+            out, err = p.communicate(timeout=900)
+        except subprocess.TimeoutExpired:
+            p.kill()
+            out, err = p.communicate()
+            out += "O the run did not finish within 900 s on real threads (deadlock or livelock)\n"
+        if rest:
+            b = rest.pop(0)
+            procs.append((b, subprocess.Popen([exe] + b, stdout=subprocess.PIPE, stderr=subprocess.PIPE, text=True, env=env)))
+        n += 1
+        case = "c12_tsan " + " ".join(a)
+        ctx.count(("tsan", a[0], a[3] if a[0] == "pool" else "-", a[4] if a[0] == "pool" else "-"), nontrivial=True)
+        bad = [ln[2:] for ln in out.splitlines() if ln.startswith("O ")]
+        if p.returncode != 0 or "E ok" not in out:
+            bad.append("the run ended abnormally (rc=%s): %s" % (p.returncode, err.strip()[-300:]))
+        for msg in bad:
+            if msg[:40] not in seen:
+                seen.add(msg[:40])
+                ctx.violation(dict(kind="tsan", argv=a, observed=msg), what="thread pool on real threads: %s (%s)" % (msg, case))
+        for summ, head in tsan_reports(err):
+            if "pool.c" in head or "POOL_" in head:
+                key = next((k for sub, k in TSAN_KEYS if sub in head), None)
+                if (key or summ) in seen:
+                    continue
+                seen.add(key or summ)
+                frames = re.findall(r"#\d+ (\S+) (\S+)", head)
+                ctx.violation(dict(kind="tsan", argv=a, observed=dict(summary=summ, stacks=head.strip()[:3000])), key=key,
+                              what="ThreadSanitizer on real threads: %s; accesses: %s (%s)" % (summ, " <- ".join("%s %s" % (f, os.path.basename(l)) for f, l in frames[:10]), case))
+            else:
+                other[summ] = other.get(summ, 0) + 1
+    ctx.notes["tsan_runs"] = n
+    if other:
+        ctx.notes["tsan_reports_outside_pool"] = other
+        core.log("C12: ThreadSanitizer reports that do not touch pool.c (recorded, other properties):", other)
+
+
 def create_failures(ctx, runner):
     """POOL_create_advanced with its k-th pthread_create / its n-th allocation failing (harness only, no model run)."""
     lines = []
@@ -588,6 +654,10 @@ def run(ctx):
     shared_phase(ctx, rng)
     if ctx.violations:
         return
+    # 2c. round 3: real pthreads under ThreadSanitizer (data races, exactly-once with real threads)
+    tsan_phase(ctx, rng)
+    if ctx.violations:
+        return
     # 3. exhaustive schedules with a preemption bound on small configurations (supporting evidence)
     ex = []
     small = corpus()
@@ -645,6 +715,27 @@ def replay(ctx, runner):
                 ctx.violation(dict(kind="create-failure", case=r["case"], observed=ln[2:]), what="replay reproduces: " + ln[2:])
         if not ctx.violations:
             core.log("replay: the recorded case no longer fails")
+        ctx.prove()
+        ctx.proof_verdict(None)
+        return
+    if r.get("kind") == "tsan":
+        exe = core.build_harness("c12_tsan", ["c12_tsan.c"], variant="tsan", extra_flags=["-w"])
+        env = dict(os.environ, TSAN_OPTIONS="halt_on_error=0 exitcode=0 report_signal_unsafe=0 history_size=4")
+        ctx.sample("c12_tsan " + " ".join(r["argv"]))
+        for k in range(5):          # real threads: the interleaving is not reproducible, the scenario is
+            p = subprocess.run([exe] + r["argv"], capture_output=True, text=True, env=env, timeout=1200)
+            ctx.count(("tsan-replay", k))
+            for ln in p.stdout.splitlines():
+                if ln.startswith("O "):
+                    ctx.violation(dict(kind="tsan", argv=r["argv"], observed=ln[2:]), what="replay reproduces: " + ln[2:])
+            for summ, head in tsan_reports(p.stderr):
+                if "pool.c" in head or "POOL_" in head:
+                    ctx.violation(dict(kind="tsan", argv=r["argv"], observed=dict(summary=summ, stacks=head.strip()[:3000])),
+                                  key=next((k2 for sub, k2 in TSAN_KEYS if sub in head), None), what="replay reproduces: ThreadSanitizer: " + summ)
+            if ctx.violations:
+                break
+        if not ctx.violations:
+            core.log("replay: the recorded real-thread scenario no longer fails (5 runs)")
         ctx.prove()
         ctx.proof_verdict(None)
         return
